@@ -70,7 +70,64 @@ def regions_of(body, boundary):
     return reg
 
 
+def retry_worker(case):
+    """One zckDL sees a transfer that dies in the middle (after N body bytes), then zck_dl_reset + a new range + a complete,
+    well-formed response: the retry must fill everything that is still missing."""
+    cdir = case["dir"]
+    keep = False
+    B = core.unb64(case["B"])
+    T0 = core.unb64(case["T0"])
+    cid = core.h8([case["name"], "retry", case["M"], case["limit"], case["style"], case["boundary"], case["upto"], case["frag"]])
+    stats = {"evaluations": 1, "interrupted_then_retried": 1}
+    try:
+        p = zckref.parse(B)
+        ext = lambda c: (p.header_len + c["start"], p.header_len + c["start"] + c["comp_len"] - 1)
+        missing = [c for c in p.chunks if c["number"] in case["M"] and c["comp_len"] > 0]
+        allowed = ",".join("%d-%d" % ext(c) for c in missing) or "0-0"
+        L = ["fopen 1 t.zck rw target", "create 1", "init_read 1 1", "fv 1", "reset_failed 1", "flags 1", "dl_init 0 1",
+             "range 2 1 %d" % case["limit"], "dl_set_range 0 2", "watch target %s" % allowed,
+             "serve 0 2 B.zck %d %s %s upto:%d" % (case["style"], case["frag"], case["boundary"], case["upto"]), "flags 1",
+             "clear_error 1", "dl_reset 0", "range 3 1 -1", "dl_set_range 0 3",
+             "serve 0 3 B.zck %d %s %sX" % (case["style"], case["frag"], case["boundary"]), "watchstat", "watch - -", "flags 1"]
+        rd = core.run_zh(case["zh"], cdir, "\n".join(L) + "\n", {"t.zck": T0, "B.zck": B}, name="retry")
+        if rd.timed_out and not rd.cpu_exceeded:
+            return core.verdict(cid, "inconclusive", detail="watchdog", case=case)
+        cs = core.crash_signatures(rd)
+        viol = None
+        if cs:
+            viol = (cs[0], "crash in %s: %s" % (rd.open_call, cs))
+        else:
+            sv = rd.ev(op="serve")
+            fl = [e["valid"] for e in rd.events if e.get("op") == "flags"]
+            ws = rd.first(op="watchstat")
+            if len(sv) < 2 or len(fl) < 3 or not ws:
+                return core.verdict(cid, "inconclusive", detail="script did not complete: %s" % rd.harness_error, case=case)
+            stats["first_transfer_cut_at"] = [case["upto"]]
+            mid = sv[0].get("delivered", 0) < sv[0].get("resp_len", 0)
+            stats["cut_mid_response"] = 1 if mid else 0
+            disk = open(os.path.join(cdir, "t.zck"), "rb").read()
+            kind = "multipart" if sv[1]["nranges"] > 1 or case["style"] & 32 else "single"
+            if ws["oob"]:
+                viol = ("c05:retry:write-outside-missing-extents:%s" % kind, "%s" % rd.first(ev="oob_write"))
+            elif sv[1]["rc"] != 1:
+                viol = ("c05:retry:wellformed-retry-rejected:%s" % kind, "retry after a transfer cut at body byte %d: callbacks reported an error; flags %s" % (case["upto"], fl[-1]))
+            elif any(f != 1 for f in fl[-1]):
+                viol = ("c05:retry:chunks-not-filled:%s" % kind, "after the retry flags are %s" % fl[-1])
+            elif disk[:len(B)] != B:
+                d = next(i for i in range(len(B)) if i >= len(disk) or disk[i] != B[i])
+                viol = ("c05:retry:image-differs:%s" % kind, "target differs from B at offset %d" % d)
+        if viol:
+            keep = True
+            return core.verdict(cid, "violated", [viol[0]], stats, detail=viol[1] + " base=%s upto=%d frag=%s style=%d" % (case["name"], case["upto"], case["frag"], case["style"]), cdir=cdir, case=case)
+        return core.verdict(cid, "held", stats=stats, nontrivial=[cid], sample={"base": case["name"], "missing": case["M"], "first_transfer_cut_after_body_bytes": case["upto"],
+                                                                               "frag": case["frag"], "style": case["style"]})
+    finally:
+        core.cleanup_case(cdir, keep)
+
+
 def worker(case):
+    if case.get("retry"):
+        return retry_worker(case)
     cdir = case["dir"]
     keep = False
     B = core.unb64(case["B"])
@@ -259,6 +316,20 @@ class C05(core.Check):
             ck = p.chunks[r.choice(sorted(M))]
             off = p.header_len + ck["start"] + r.randrange(ck["comp_len"])
             add("subsets", B, M, r.choice([-1, -1, 1, 2]), r.choice([0, 0, 1, 4, 32]), r.choice(["plain", "rfc"]), "list" if mask % 3 else "cuts1", corrupt=off)
+        # --- a transfer that dies mid-way, then zck_dl_reset and a complete retry on the same zckDL
+        for i in range(40 if q else 600):
+            n = r.choice([4, 8, 20])
+            B = base(n, 5, r.choice([60, 900]), dict_size=r.choice([0, 30]))
+            p = zckref.parse(B)
+            ids = [c["number"] for c in p.chunks if c["comp_len"] > 0]
+            M = sorted({k for k in ids if r.random() < 0.7} or {ids[-1]})
+            bd = make_boundary(r, r.choice(["plain", "hex", "rfc"]))
+            style = r.choice([0, 1, 4, 32, 36])
+            if any(ch not in TOKEN_SAFE for ch in bd):
+                style |= 1
+            for upto in r.sample([1, 3, 17, 60, 150, 333, 700, 1500, 4000], 3):
+                out.append({"retry": True, "name": "retry%d" % i, "B": core.b64(B), "T0": core.b64(t0_for(B, p, set(M))), "M": M, "limit": r.choice([-1, 1, 2, 3]),
+                            "style": style, "boundary": bd, "upto": upto, "frag": r.choice(["all", "n:1", "n:7", "n:1000"]), "zh": ctx["zh"]})
         # --- larger files: random partitions, truncated targets, many ranges
         for i in range(8 if q else 120):
             n = r.choice([8, 30, 120])
